@@ -120,7 +120,10 @@ CHECKS["C03"] = {
     "technique": "stateless exhaustive exploration of all abstract-domain operation histories up to a depth on the real domains, each state checked against witness sets of concrete valuations",
     "design_ref": "DESIGN.md §2 C03",
     "jobs": [{"bin": "e3_hist", "args": ["--mode", "dfs"], "deadline": {"quick": 420, "thorough": 900}}],
-    "rule": ("for each of 35 domain instantiations (intervals, constants, signs, sign-constants, interval-congruences, sparse/split DBM, "
+    "rule": ("[domains that model booleans get a third phase: the boolean-focus alphabet = every boolean operation (assignments of constraints and "
+             "constants, negated copies, and/or/xor, three select forms incl. lhs among the operands, int<->bool casts, assumes, forget) + 10 "
+             "numerical operations that interact with the recorded facts (incl. expand onto a forgotten variable), one level deeper than the core "
+             "phase] for each of 35 domain instantiations (intervals, constants, signs, sign-constants, interval-congruences, sparse/split DBM, "
              "split octagons, disjunctive intervals, term domains x3, uf, fixed-tvpi, flat boolean x2, reduced product, powerset, value "
              "partitioning, lookahead widening, packing, array smashing x3, array adaptive x4, region x7) and each parameter configuration "
              "(quick: default + every single-flag flip; thorough: full product, e.g. 16 closure settings for zones and octagons, 32 region settings): "
@@ -179,7 +182,8 @@ CHECKS["C12"] = {
     "technique": "exhaustive enumeration of all ordered tuples of in-language constraints (and joins/meets/forgets/copies of such conjunctions) on the real domains, against brute-force integer satisfiability/implication in a box; lock-step lifted-vs-base histories",
     "design_ref": "DESIGN.md §2 C12",
     "jobs": [{"bin": "c12_exact", "args": ["--mode", "exact"], "deadline": {"quick": 420, "thorough": 900}},
-             {"bin": "c12_exact", "args": ["--mode", "lifting"], "deadline": {"quick": 240, "thorough": 900}}],
+             {"bin": "c12_exact", "args": ["--mode", "lifting"], "deadline": {"quick": 240, "thorough": 900}},
+             {"bin": "c12_exact", "args": ["--mode", "meet4"], "deadline": {"quick": 240, "thorough": 900}}],
     "rule": ("languages over x,y,z with |k|<=2: intervals 30 constraints, zones 60, octagons 90. For intervals, sparse_dbm, split_dbm, split_oct "
              "and every closure-parameter setting (5 quick / 16 thorough): every single constraint, every ORDERED pair (added one at a time, as one "
              "system, and with the last one added to a copy) and every ordered triple (quick: default setting, third constant |k|<=1); forget of each "
@@ -187,7 +191,10 @@ CHECKS["C12"] = {
              "[-10,10]^3: bottom <=> no solution; entails(c) <=> implied for EVERY language constraint c with |k|<=3; at(v) = exact projection "
              "(nested boxes detect unbounded directions); join entails c <=> both operands do (least upper bound); meet/forget exact. "
              "Lifting clause: all straight-line numerical histories (extended C03 alphabet, depth 2/3) run in lock step on each boolean/array/"
-             "region lifting and reduced product and on its base domain: lifted at(v) must be within base at(v)."),
+             "region lifting and reduced product and on its base domain: lifted at(v) must be within base at(v). "
+             "Job 3 (meet4): difference constraints v_i - v_j <= c over FOUR variables, c in {1,5} (24 constraints): every meet of one constraint with "
+             "every set of three (both orders; thorough also two with two) on sparse_dbm, split_dbm, split_oct and every closure setting; oracle = "
+             "Floyd-Warshall on the union: bottom iff negative cycle, every implied difference bound is entailed and no stronger one is."),
     "assumptions": ["a satisfiable conjunction of <=3 unit-coefficient constraints with |k|<=2 has a solution well inside [-10,10]^3 and bounded optima are attained strictly inside (nested-box test)"],
     "level_text": "Complete enumeration of the stated constraint tuples and pairs on the real domains with an exact brute-force integer oracle.",
     "level_note": "Three variables, |k|<=2, up to 3 constraints; languages with more variables or larger constants are not covered.",
